@@ -62,6 +62,10 @@ inductive Op where
   | getBucketPolicy (b : Bytes)
   | deleteBucketPolicy (b : Bytes)
   | putBucketAcl (b : Bytes) (acl : CannedAcl)
+  /-- PutBucketAcl with `x-amz-grant-*` headers: the (permission, account) pairs in header order FULL_CONTROL,
+  READ, READ_ACP, WRITE, WRITE_ACP, within one header in the order given, repetitions within one header
+  dropped (auth.UpdateACL / splitUnique); all accounts exist -/
+  | putBucketAclGrants (b : Bytes) (grants : List (Perm × Bytes))
   | getBucketAcl (b : Bytes)
   | putBucketTagging (b : Bytes) (tags : KVs)
   | getBucketTagging (b : Bytes)
@@ -412,6 +416,10 @@ def handle (cfg : Cfg) (s : State) (w : Who) (now : Int) : Op → State × Resp
     guarded (verifyAccess cfg bk w .writeAcp actPutBucketAcl []) s fun _ =>
     if acl == .none then (s, errR "MissingSecurityHeader") else
     (setBucket s { bk with acl := ⟨bk.acl.owner, cannedGrantees bk.acl.owner acl⟩ }, okR)
+  | .putBucketAclGrants b gs => withBucket s b fun bk =>
+    if bk.ownership == some .bucketOwnerEnforced then (s, errR "AccessControlListNotSupported") else
+    guarded (verifyAccess cfg bk w .writeAcp actPutBucketAcl []) s fun _ =>
+    (setBucket s { bk with acl := ⟨bk.acl.owner, ⟨bk.acl.owner, .fullControl, false⟩ :: gs.map fun (p, a) => ⟨a, p, false⟩⟩ }, okR)
   | .getBucketAcl b => withBucket s b fun bk =>
     guarded (verifyAccess cfg bk w .readAcp actGetBucketAcl []) s fun _ =>
     (s, okR [("acl", showAcl bk.acl)])
